@@ -15,12 +15,12 @@ Step1(e) == CASE e.a = "Accept" -> Accept(e.kind) [] e.a = "Ready" -> Ready(e.k)
               [] e.a = "Respond" -> Respond(e.k, e.kind)
               [] e.a = "RespondStale" -> \E i \in 1..Len(stale) : stale[i].kind = e.kind /\ stale[i].key = e.key /\ RespondStale(i, IF e.k = 0 THEN "ok" ELSE "reject") [] e.a = "Timeout" -> TimeoutAll [] e.a = "Notify" -> Notify(e.kind, e.k)
               [] e.a = "Subscribe" -> Subscribe(e.kind)
-              [] e.a = "Burst" -> Burst(e.k) [] e.a = "ReadyRace" -> ReadyRace(e.k)
+              [] e.a = "Burst" -> Burst(e.k) [] e.a = "ReadyRace" -> ReadyRace(e.k) [] e.a = "CallBig" -> CallBig(e.k, e.key)
               [] e.a = "Drop" -> Drop [] e.a = "Stop" -> Stop [] OTHER -> FALSE
 TMatch == /\ l < Len(Tr) /\ Tr[l+1].act.a # "init" /\ Tr[l+1].skip = ""
          /\ Step1(Tr[l+1].act) /\ Same(l+1) /\ l' = l + 1 /\ UNCHANGED rej
 TStart(i) == /\ ep' = 1 /\ acc' = FALSE /\ hs' = FALSE /\ nextId' = 1 /\ calls' = [k \in Slots |-> Idle] /\ sent' = [k \in Slots |-> FALSE]
-             /\ order' = <<>> /\ queue' = <<>> /\ stale' = <<>> /\ srv' = <<>> /\ deliv' = <<>> /\ run' = "running" /\ steps' = 0 /\ had' = FALSE /\ act' = A("init", 0, "", 0) /\ l' = i
+             /\ order' = <<>> /\ queue' = <<>> /\ stale' = <<>> /\ srv' = <<>> /\ deliv' = <<>> /\ run' = "running" /\ steps' = 0 /\ had' = FALSE /\ carry' = NoCarry /\ act' = A("init", 0, "", 0) /\ l' = i
 Begin == l < Len(Tr) /\ Tr[l+1].act.a = "init" /\ TStart(l+1) /\ UNCHANGED rej
 NextInit(i) == IF \E j \in i..Len(Tr) : Tr[j].act.a = "init"
                THEN CHOOSE j \in i..Len(Tr) : Tr[j].act.a = "init" /\ \A k \in i..(j-1) : Tr[k].act.a # "init" ELSE 0
